@@ -29,7 +29,8 @@ compare private attributes of the elements, nor the classes of objects (values a
 A Split or a Zip may itself be a branch (given directly, not inside a tuple or a sequence object): kind "nest".  The values
 it yields are values of that branch; they are compared with those of an identical nested object alone.  The sequences of
 a nested Split end with the Mark of the outer branch; a nested Zip yields merged values, recorded by wrapping the public
-compute / request attribute of the Zip instance (as Zip.__init__ sets it).  These cases have no model run.
+compute / request attribute of the Zip instance (as Zip.__init__ sets it).  A nested Split of one common type is modelled
+(Model/C04Nest.lean, one level); a nested Zip, a nested Split of mixed sequences and deeper nesting have no model run.
 The harness drives lena through its public interface only (Split(...).run / fill / compute / request, Zip(...).fill,
 the public sequence classes); the one private name it reads, defensively, is the list in which a Zip keeps the
 sequences it made of plain tuples (_zip_seqs; see ASSUMPTIONS).
@@ -59,7 +60,7 @@ from harness.common import exc_name
 PID = "C04"
 TITLE = "Context non-interference between Split branches and across accumulators"
 LEAN_MODULES = ["LenaModel.Props.C04", "LenaModel.Props.C04Nest"]
-LEAN_SOURCES = ["LenaModel/Model/C04.lean", "LenaModel/Model/C04Spec.lean", "LenaModel/Lemmas/C04.lean", "LenaModel/Lemmas/C04Alone.lean",
+LEAN_SOURCES = ["LenaModel/Model/C04.lean", "LenaModel/Model/C04Spec.lean", "LenaModel/Model/C04Nest.lean", "LenaModel/Lemmas/C04.lean", "LenaModel/Lemmas/C04Alone.lean",
                 "LenaModel/Lemmas/C04Local.lean", "LenaModel/Lemmas/C04Fill.lean", "LenaModel/Lemmas/C04Purpose.lean",
                 "LenaModel/Lemmas/C04Hist.lean", "LenaModel/Props/C04.lean", "LenaModel/Props/C04Nest.lean"]
 DRIVER = "drivers/C04.lean"
@@ -122,7 +123,8 @@ AUX_THEOREMS = [
 ]
 TRUSTED = [
     "Lean 4.33.0 kernel; axioms limited to propext, Classical.choice, Quot.sound (audited by #print axioms on every run)",
-    "hand transcription of Split.run/_fill/_compute/_request, Zip._fill/_compute, the accumulators' fill/compute (including "
+    "hand transcription of Split.run/_fill/_compute/_request (also of a Split used as a branch through its common-type "
+    "methods, with its own copy_buf: Model/C04Nest.lean), Zip._fill/_compute, the accumulators' fill/compute (including "
     "the loops of Mean.compute, Vectorize.compute, SplitIntoBins.compute that copy the context once per value) and the "
     "mutating elements into LenaModel/Model/C04.lean at the level of object identity, validated by this correspondence "
     "check against the id() graph of the real run",
@@ -173,14 +175,19 @@ ASSUMPTIONS = [
     "fill and compute / request —, or of mixed sequences — then it is a Run element, run on every buffer; with and "
     "without copy_buf, nested twice) is exercised on the real code and judged by the oracle (the nested object inside "
     "versus the same object alone on a private deep copy; no object shared between the values of different outer "
-    "branches). For the model such an object is one branch (`Ops`): the generic theorems speak about it under the "
-    "hypothesis `Local`, which names ONE namespace of own objects, while the transcription of a Split as an object "
-    "(splitAccOps) allocates in one namespace per inner sequence — so there is no executable instance of a nested "
-    "branch, no correspondence run for these cases (copy_buf=False on the outer level is therefore not generated for "
-    "them), and `Local` for a nested Split is an assumption (true of the code for the reason it is true of any "
-    "element: it touches only what it is passed and what it made). splitFill_last_gets_original proves the fact that "
-    "makes the outer copy necessary. Within the model a Split as an accumulator stays covered: split_fc, zip, "
-    "Mean(Split), Vectorize(Mean(Split)), SplitIntoBins(Split)",
+    "branches). Modelled (Model/C04Nest.lean: splitObjAct, nestOps, mkBranchesN; correspondence on the id() graph and the "
+    "executed proj = aloneTrace / aloneFillLife, SchedOK / FillOK, Disj): a common-type Split as a branch, one level, "
+    "both copy_buf values on both levels. Oracle only: a nested Zip (its compute merges values), a nested Split of mixed "
+    "sequences, depth 2 (for these copy_buf=False on the outer level is not generated). For the model a nested object "
+    "is one branch (`Ops`): the generic theorems speak about it under the hypothesis `Local`, which names ONE namespace "
+    "of own objects, while nestOps allocates in one namespace per inner sequence — so `Local` for a nested Split is an "
+    "assumption (true of the code for the reason it is true of any element: it touches only what it is passed and what "
+    "it made), harness_branch_alone_equiv does not cover branch lists with nested objects, and "
+    "splitFill_last_gets_original proves the fact that makes the outer copy necessary. Two comparisons are not made for "
+    "a nested branch: the probe flags (the probe stands behind the nested Split's own copy) and, for an inner "
+    "copy_buf=False, the contents at the moment of the yield (the real compute() is a lazy generator, an invocation of "
+    "the model is one step; contents at the end of the run are compared). Within the model a Split as an accumulator "
+    "stays covered as before: split_fc, zip, Mean(Split), Vectorize(Mean(Split)), SplitIntoBins(Split)",
     "the FillRequest adapter (lena.core.FillRequest around a fill/compute element; request() yields values computed "
     "during an earlier fill when buffer_output is set) has no model: it is covered by the oracle on the real code only "
     "(identity of yielded contexts, mutated run versus twin). downstream_updates_harmless is proved for the accumulators "
@@ -216,8 +223,9 @@ RULE = ("split cases: 0-4 branches of the four kinds (given as explicit sequence
         "copy_buf=True, copy_buf=False) or a Zip given DIRECTLY as a branch — first, middle, last position, two side by "
         "side, nested twice; all its sequences fill/compute or all fill/request (used through fill + compute/request by "
         "an outer Split driven by run, by fill and by an outer Zip) or mixed (a Run element); its first and its LAST "
-        "inner sequence changing data and context in place — is enumerated in both tiers (nest_cases, 648 cases) and "
-        "drawn at random (about a fifth of the split cases); oracle only. Objects: data and contexts are "
+        "inner sequence changing data and context in place — is enumerated in both tiers (nest_cases, 792 cases) and "
+        "drawn at random (about a fifth of the split cases); common-type nested Splits also with copy_buf=False on the "
+        "outer level and against the model, the others oracle only. Objects: data and contexts are "
         "dict / list / tuple / scalars and, named by class in the case, user objects with mutable attributes (instance "
         "dictionary, slots; hashable), dict subclasses (lena.context.Context, OrderedDict, user class), list subclass, deque, "
         "bytearray, set / frozenset of user objects, tuples and namedtuples holding mutable objects, dictionaries nested 8 deep, nested in each other (data_shapes: 18 "
@@ -1482,7 +1490,12 @@ def compare(case, res, replies):
                                 "from aloneTrace / aloneFillLife on the schedule of its hand events" % i)
                     if not cb.get("sched_ok", True):
                         return "Lean: the schedule of branch %d read off the hand events is not SchedOK / FillOK" % i
-                    if cb["alone"] is not None and "alone" in res and not isinstance(res["alone"][i], dict):
+                    # (a nested Split with copy_buf=False: its sequences share the objects of a value, and the real
+                    # compute() is a generator — the values of the first sequence are yielded before the compute() of
+                    # the next one, e.g. a Count, writes into the shared context —, while an invocation of the model is
+                    # one step: the contents at the moment of the yield are compared for private objects only)
+                    lazy = case["branches"][i]["kind"] == "nest" and case["branches"][i].get("copy_buf") is False
+                    if not lazy and cb["alone"] is not None and "alone" in res and not isinstance(res["alone"][i], dict):
                         if cb["alone"] != model_floats(res["alone"][i][0]) and model_floats(cb["alone"]) != res["alone"][i][0]:
                             return ("branch %d: aloneTrace (Lean) yields %s, the real branch alone yields %s"
                                     % (i, str(cb["alone"])[:300], str(res["alone"][i][0])[:300]))
@@ -2280,8 +2293,9 @@ LEVEL_TEXT = ("Lean 4 theorems about a shared-heap (object identity) model of Sp
               "fill/compute); "
               "downstream in-place updates of yielded values change no later response (accumulators). The model is tied to "
               "/repo by a correspondence check on the id() graph of real runs, plus a direct oracle (branch alone vs inside "
-              "Split; freshness and mutation-robustness of yielded contexts). Not modelled, oracle only: the FillRequest "
-              "adapter; sharing of objects nested inside a context (a context is one cell of the model).")
+              "Split; freshness and mutation-robustness of yielded contexts). A Split given directly as a branch of another Split/Zip is a branch object of the "
+              "model (correspondence; Local for it is an assumption). Not modelled, oracle only: the FillRequest "
+              "adapter, a nested Zip or mixed Split as a branch; sharing of objects nested inside a context (a context is one cell of the model).")
 LEVEL_NOTE = ("Trusted: Lean kernel (+ propext, Classical.choice, Quot.sound), the hand transcription validated by the "
               "correspondence runs, locality of mutation for user code, absence of exceptions other than LenaStopFill in "
               "the generic Split theorems, the id()-graph observation (dict/list/tuple), the JSON protocol. 5 of the "
